@@ -342,6 +342,26 @@ for _nm, _w, _tier in (("v5_entry_1", "V5 count 1 + 3 trailing bytes", "quick"),
         bounds={"shape": _w + " (count written)"}))
 
 
+# ---------------------------------------------------------------- C15: allocation for bytes not present
+_ACCT = "the Rust global allocator is Kani's model (kani_lib.c: malloc per request, never fails) extended with three counters (vlib/kani_lib_acct.c): bytes requested, number of requests, largest request; deallocation is not credited"
+for _nm, _d, _b in (
+    ("c15_v5_count", "V5Parser::parse, header.count symbolic (all 65536 values) over a buffer holding no complete record", {"bytes": 27}),
+    ("c15_v7_count", "V7Parser::parse, header.count symbolic over a buffer holding no complete record", {"bytes": 27}),
+    ("c15_v9_count", "V9Parser::parse, header.count symbolic, 3 stray bytes: no pre-allocation by count at all", {"bytes": 21}),
+    ("c15_v9_template_field_count", "v9::FlowSet::parse, template record announcing any field count over an 8-byte body", {"bytes": 12}),
+    ("c15_v9_options_template_lengths", "v9::FlowSet::parse, options template announcing any scope/option lengths over a 10-byte body", {"bytes": 14}),
+    ("c15_v9_flowset_length", "v9::FlowSet::parse, flowset (id 0/1/300) announcing any length beyond the 6 bytes present: nothing allocated", {"bytes": 6}),
+    ("c15_ipfix_length", "IPFixParser::parse, message announcing any length beyond the buffer: only the error copies", {"bytes": 18}),
+    ("c15_ipfix_template_field_count", "ipfix::FlowSet::parse, template record announcing any field count over an 8-byte body", {"bytes": 12}),
+    ("c15_ipfix_options_template_counts", "ipfix::FlowSet::parse, options template announcing any field/scope counts over a 10-byte body", {"bytes": 14}),
+    ("c15_kernel_vec", "FieldValue::from_field_type(Vec): any declared length over <= 5 available bytes", {"available": "0..=5", "declared": "all 65536"}),
+    ("c15_kernel_string", "FieldValue::from_field_type(String): any declared length over <= 5 available bytes", {"available": "0..=5", "declared": "all 65536"}),
+):
+    reg(["C15"], H("c15::" + _nm, unwind=3, timeout=900, mem_gb=12, acct=True,
+        desc=_d + ": largest single heap request <= 64 KiB (nom's pre-allocation cap) and total requested <= 64 KiB + 8 x bytes present + 512; every loop exits within the unwinding bound (no work per announced-but-absent element)",
+        bounds=dict(_b, counts_and_lengths="every 16-bit value"), assumptions=[_ACCT]))
+
+
 def all_harnesses():
     return list(_ALL)
 
@@ -350,6 +370,10 @@ def all_harnesses():
 # within the quick budget run in the thorough tier only
 THOROUGH_ONLY = [r"^ser::", r"^cv::", r"s_ipfix_undecodable", r"^p::p_v9_(two_sets_tail|count_gt)", r"^d10::", r"^e2e::", r"^d9::d_v9_two_fields",
                  r"^w::w_real_5_stray", r"^fixed::error_common", r"count_\d+$"]
+# per-property quick-tier exclusions (the harness still runs in that property's thorough tier and in
+# the quick tier of the other properties it serves): keeps every quick command well under 900 s
+QUICK_EXCLUDE = {"C06": [r"^w::w_shape_(10_7_stray|7_5cut)$", r"^s10::s_ipfix_template_e_p$"],
+                 "C05": [r"^s10::s_ipfix_template_e_p$"]}
 C01_QUICK = {"k::k_unsigned", "k::k_vec", "d9::d_v9_zero_size_template_1", "d9::d_v9_three_records", "s9::s_v9_template_1f_trunc",
              "s9::s_v9_data_dispatch", "s10::s_ipfix_data_dispatch", "w::w_real_9cut", "w::wr_ipfix_entry_22", "w::wr_v9_entry_c1_s3",
              "fixed::v5_reexport_1", "s9::s_v9_truncated_d_max", "w::w_shape_7_5cut"}
@@ -365,6 +389,8 @@ def harnesses_for(pid, tier, seed=0):
     for h in _ALL:
         if pid in h.props and (tier == "thorough" or h.tier == "quick"):
             if pid == "C01" and tier == "quick" and not (h.name in C01_QUICK and h.feature == "on"):
+                continue
+            if tier == "quick" and any(_re.search(p_, h.name) for p_ in QUICK_EXCLUDE.get(pid, [])):
                 continue
             out.append(h)
     return out
